@@ -13,11 +13,16 @@ def run(tier):
     for mode in ("small", "seeds", "mt", "strings", "memlimit"):
         extra = files if mode == "seeds" else []
         ck.run_harness(mode, e, [[mode, tier, i, n] + extra for i in range(n)], env=env)
+    # the same enumerations under MemorySanitizer (decisions that depend on memory nobody wrote): single-threaded modes
+    m = vlib.build_harness("c04_misbehave_msan", SRC, "msan")
+    for mode in (("small", "seeds") if tier == "quick" else ("small", "seeds", "strings", "memlimit")):
+        extra = files if mode == "seeds" else []
+        ck.run_harness("msan-" + mode, m, [[mode, tier, i, n] + extra for i in range(n)], env=env)
     ck.assumptions += [
         "header-less entry points get every byte string of length <=2 and every 3-byte string over a 24-value control alphabet (thorough: every 3-byte string for five of them)",
         "9 field-mapped seeds: every position x every byte value (quick: thinned for seeds >400 bytes), each also with the enclosing CRC32 repaired so the mutation reaches the parser behind the CRC; truncations, deletions, insertions; the suite's files <=500 (1200) bytes with 4 XOR masks per byte",
         "threaded decoder with 2 free-running threads on a 3-Block file (every byte x 3 masks, every truncation, input/output starvation) under a 30 s watchdog; lzma_str_to_filters: all sequences of <=3 (4) tokens from 37 and all strings <=4 over 11 characters",
-        "oracle: no ASan/UBSan report or failed assertion, only documented return codes, allocator balance zero, seek_pos within the file, starvation reported within two calls, bounded number of calls",
+        "oracle: no ASan/UBSan/MemorySanitizer report or failed assertion, only documented return codes, allocator balance zero, seek_pos within the file, starvation reported within two calls, bounded number of calls",
         "multi-byte coordinated corruptions outside these families are fuzzing territory (sampling), not covered",
     ]
     return ck.finish(rule="each enumerated input is fed to each applicable entry point under each slicing; evaluation = one run; distinct counts the runs (inputs differ pairwise within a family)")
